@@ -12,9 +12,9 @@ from sa.rules.c12 import selection_functions
 
 OPTIONS = ["repeat", "split", "shuffle"]
 EXCEPTIONS = {
-    ("RustGenerator._single_iter", "DatasetIteration.as_numpy_common",
+    ("RustGenerator.*", "DatasetIteration.as_numpy_common",
      "repeat"): "one finite epoch per call; RustGenerator.__call__ loops "
-                "`while self._repeat` around it",
+                "`while self._repeat` around it (checked by C19.inf)",
 }
 
 
